@@ -18,6 +18,7 @@ Not decided: panics inside ratatui / crossterm for degenerate terminal sizes; th
 import re
 
 from .common import *
+from ..tables import cdec, cwant, canon
 from ..callgraph import CallGraph
 from ..cfg import CFG
 from ..vra import RangeEngine, Lin
@@ -351,7 +352,7 @@ def run(chk, tier):
         ws = {ev[2]: vshow(ev[3]) for ev in o_.st.events if ev[0] == 'write' and ev[1] == APP}
         d = dict((vshow(a), v) for a, v, _ in o_.st.decisions)
         if ws.get('show_flows') == '1':
-            if not (ws.get('selected_flow') == 'FlowId(1)' and d.get('Gt(call:TuiApp::flow_count(self), 0)') == 1):
+            if not (ws.get('selected_flow') == 'FlowId(1)' and cdec(o_).get(canon('Gt(call:TuiApp::flow_count(self), 0)', 1)[0]) == canon('Gt(call:TuiApp::flow_count(self), 0)', 1)[1]):
                 okt = False
         elif 'selected_flow' in ws and ws.get('selected_flow') != 'FlowId(0)':
             okt = False
